@@ -108,11 +108,13 @@ pub struct Scenario {
     pub max_len: Option<u32>,
     /// construct the reader with `with_buffer` and a recycled buffer (stale content, spare capacity)
     pub ctor: u8,
+    /// right after the result of frame #i was returned, `set_max_len(m)` for good
+    pub relimit: Option<(usize, u32)>,
 }
 
 impl Scenario {
     fn json(&self) -> serde_json::Value {
-        json!({"frames": describe(&self.frames), "stream_hex": refmodel::hex(&wire(&self.frames)), "bytes_before_end_of_stream": self.avail, "max_len": self.max_len, "constructor": self.ctor})
+        json!({"frames": describe(&self.frames), "stream_hex": refmodel::hex(&wire(&self.frames)), "bytes_before_end_of_stream": self.avail, "max_len": self.max_len, "constructor": self.ctor, "relimit": self.relimit.map(|(i, m)| vec![i as u64, m as u64])})
     }
 }
 
@@ -150,14 +152,18 @@ pub fn run_logged(sc: &Scenario, lim: Limits, ch: SharedChooser, obs_out: &mut O
         log: if verbose { Some(Vec::new()) } else { None },
     }));
     let mut reader = if sc.ctor != 0 { AsyncReader::with_buffer(Src(st.clone()), dirty_buffer(sc.ctor)) } else { AsyncReader::new(Src(st.clone())) };
-    let max_len = match sc.max_len {
+    let mut max_len = match sc.max_len {
         Some(m) => {
             reader.set_max_len(m);
             m as usize
         }
         None => 512 * 1024,
     };
-    let expected = model(&sc.frames, sc.avail, max_len);
+    let first_limit = max_len;
+    let expected = model_limits(&sc.frames, sc.avail, &|i| match sc.relimit {
+        Some((k, m)) if i > k => m as usize,
+        _ => first_limit,
+    });
     let mut cx = Context::from_waker(Waker::noop());
     let mut results: Vec<Res> = Vec::new();
     let mut drops = 0u32;
@@ -175,8 +181,8 @@ pub fn run_logged(sc: &Scenario, lim: Limits, ch: SharedChooser, obs_out: &mut O
             break;
         }
         issued += 1;
-        if sc.ctor != 0 {
-            // a frame may be in flight (dropped future / transient error): the setter must not disturb it
+        if sc.ctor != 0 && sc.ctor != 4 {
+            // a frame may be in flight (constructor 4 keeps the default limit untouched: no setter call at all) (dropped future / transient error): the setter must not disturb it
             let in_flight = reader.verif_state().2;
             reader.set_max_len(in_flight.saturating_sub(1) as u32);
             reader.set_max_len(max_len as u32);
@@ -253,6 +259,12 @@ pub fn run_logged(sc: &Scenario, lim: Limits, ch: SharedChooser, obs_out: &mut O
                 return Err(format!("result #{} is {:?}, the model expects {:?}; all results {:?}", next_expected, r, expected.values[next_expected], results));
             }
             next_expected += 1;
+            if let Some((k, m)) = sc.relimit {
+                if next_expected == k + 1 {
+                    reader.set_max_len(m);
+                    max_len = m as usize;
+                }
+            }
         } else {
             if r != expected.terminal {
                 return Err(format!("after {} frames the call returned {:?}, the model expects {:?}; all results {:?}", next_expected, r, expected.terminal, results));
@@ -288,12 +300,12 @@ pub fn scenarios(tier: Tier) -> (Vec<Scenario>, Limits, String) {
                 if avail < total && !(ml.is_none() || ml == Some(largest)) {
                     continue;
                 }
-                out.push(Scenario { frames: fs.clone(), avail, max_len: ml, ctor: 0 });
+                out.push(Scenario { frames: fs.clone(), avail, max_len: ml, ctor: 0, relimit: None });
                 if ml.is_none() && avail == total {
-                    out.push(Scenario { frames: fs.clone(), avail, max_len: ml, ctor: 1 });
+                    out.push(Scenario { frames: fs.clone(), avail, max_len: ml, ctor: 1, relimit: None });
                     if fs.len() <= 1 {
-                        out.push(Scenario { frames: fs.clone(), avail, max_len: ml, ctor: 2 });
-                        out.push(Scenario { frames: fs.clone(), avail, max_len: ml, ctor: 3 });
+                        out.push(Scenario { frames: fs.clone(), avail, max_len: ml, ctor: 2, relimit: None });
+                        out.push(Scenario { frames: fs.clone(), avail, max_len: ml, ctor: 3, relimit: None });
                     }
                 }
             }
@@ -308,7 +320,7 @@ pub fn scenarios(tier: Tier) -> (Vec<Scenario>, Limits, String) {
         }
         if l >= 500_000 {
             let fs = vec![big.clone()];
-            out.push(Scenario { frames: fs.clone(), avail: wire(&fs).len(), max_len: None, ctor: 0 });
+            out.push(Scenario { frames: fs.clone(), avail: wire(&fs).len(), max_len: None, ctor: 0, relimit: None });
             continue;
         }
         let seqs = if huge || tier == Tier::Quick { vec![vec![big.clone()]] } else { vec![vec![big.clone()], vec![kinds[0].clone(), big.clone()]] };
@@ -317,11 +329,35 @@ pub fn scenarios(tier: Tier) -> (Vec<Scenario>, Limits, String) {
             let lead = if fs.len() == 1 { 0 } else { 4 + kinds[0].payload.len() };
             let cuts = if huge { vec![total, total - 1, lead + 4 + l / 2] } else { vec![total, total - 1, lead + 4 + l / 2, lead + 4, lead + 3] };
             for avail in cuts {
-                out.push(Scenario { frames: fs.clone(), avail, max_len: None, ctor: 0 });
+                out.push(Scenario { frames: fs.clone(), avail, max_len: None, ctor: 0, relimit: None });
             }
-            out.push(Scenario { frames: fs.clone(), avail: total, max_len: Some(l as u32), ctor: 1 });
-            out.push(Scenario { frames: fs.clone(), avail: total, max_len: Some(l as u32 - 1), ctor: 0 });
+            out.push(Scenario { frames: fs.clone(), avail: total, max_len: Some(l as u32), ctor: 1, relimit: None });
+            out.push(Scenario { frames: fs.clone(), avail: total, max_len: Some(l as u32 - 1), ctor: 0, relimit: None });
         }
+    }
+    // a recycled buffer with more capacity than the default maximum does not raise the limit
+    for big in large_frames().into_iter().filter(|f| f.payload.len() >= 500_000) {
+        let fs = vec![big.clone()];
+        out.push(Scenario { frames: fs.clone(), avail: wire(&fs).len(), max_len: None, ctor: 4, relimit: None });
+    }
+    // the limit changed on a reader that has been used
+    {
+        let big = large_frames()[2].clone(); // 257 payload bytes
+        let small = kinds[2].clone(); // [1,2]: 3 payload bytes
+        let tiny = kinds[0].clone(); // [5]: 2 payload bytes
+        for (fs, re) in [
+            (vec![big.clone(), small.clone()], (0usize, 2u32)),
+            (vec![big.clone(), small.clone()], (0, 3)),
+            (vec![small.clone(), tiny.clone()], (0, 1)),
+            (vec![small.clone(), tiny.clone(), small.clone()], (0, 2)),
+            (vec![tiny.clone(), small.clone()], (0, 2)),
+        ] {
+            let total = wire(&fs).len();
+            out.push(Scenario { frames: fs.clone(), avail: total, max_len: None, ctor: 0, relimit: Some(re) });
+            out.push(Scenario { frames: fs.clone(), avail: total, max_len: Some(300), ctor: 1, relimit: Some(re) });
+        }
+        let fs = vec![small.clone(), tiny.clone()];
+        out.push(Scenario { frames: fs.clone(), avail: wire(&fs).len(), max_len: Some(2), ctor: 0, relimit: Some((0, 3)) });
     }
     // hostile declared lengths, always last, full stream and one truncation
     for h in hostile_frames() {
@@ -329,13 +365,13 @@ pub fn scenarios(tier: Tier) -> (Vec<Scenario>, Limits, String) {
             let mut fs = lead.clone();
             fs.push(h.clone());
             let total = wire(&fs).len();
-            out.push(Scenario { frames: fs.clone(), avail: total, max_len: None, ctor: 0 });
-            out.push(Scenario { frames: fs.clone(), avail: total, max_len: Some(8), ctor: 1 });
+            out.push(Scenario { frames: fs.clone(), avail: total, max_len: None, ctor: 0, relimit: None });
+            out.push(Scenario { frames: fs.clone(), avail: total, max_len: Some(8), ctor: 1, relimit: None });
         }
     }
     out.sort_by_key(|s: &Scenario| std::cmp::Reverse(s.avail));
     let bound = format!(
-        "streams of 0..={} frames over {} payload kinds, <= {} bytes, every truncation point, max_len in {{default, L-1, L, L+1}}, plus frames with payloads of 255..65537 bytes and of 512 KiB / 512 KiB + 1 (the default maximum; deviation budget 2) (reads of more than 32 bytes delivered whole or, as one deviation each, as 1 / half / all-but-one bytes); AsyncReader::new and ::with_buffer(recycled buffer); source: all delivery sizes (free), <= {} consecutive Pending, <= {} transient errors; caller: <= {} dropped futures; total deviation budget {}",
+        "streams of 0..={} frames over {} payload kinds, <= {} bytes, every truncation point, max_len in {{default, L-1, L, L+1}}, plus frames with payloads of 255..65537 bytes and of 512 KiB / 512 KiB + 1 (the default maximum; deviation budget 2) (reads of more than 32 bytes delivered whole or, as one deviation each, as 1 / half / all-but-one bytes); AsyncReader::new and ::with_buffer(recycled buffer: stale bytes / spare capacity / 640 KiB of capacity); set_max_len lowered / raised after a frame on a used reader (11 scenarios); source: all delivery sizes (free), <= {} consecutive Pending, <= {} transient errors; caller: <= {} dropped futures; total deviation budget {}",
         max_frames, kinds.len(), max_bytes, lim.p, lim.e, lim.d, lim.b
     );
     (out, lim, bound)
@@ -432,6 +468,7 @@ pub fn replay_case(case: &serde_json::Value) -> Result<(), String> {
         avail: sc["bytes_before_end_of_stream"].as_u64().unwrap() as usize,
         max_len: sc["max_len"].as_u64().map(|x| x as u32),
         ctor: sc["constructor"].as_u64().unwrap_or(0) as u8,
+        relimit: sc["relimit"].as_array().map(|a| (a[0].as_u64().unwrap() as usize, a[1].as_u64().unwrap() as u32)),
     };
     let choices: Vec<u32> = case["choices"].as_array().unwrap().iter().map(|x| x.as_u64().unwrap() as u32).collect();
     let l = &case["limits"];
